@@ -248,6 +248,27 @@ func hasBound(t *Term) bool {
 	return r
 }
 
+var strMemo = map[*Term]bool{}
+
+// hasStrSort: does the term contain a sub-term of sort String (string theory makes quantified goals much harder for
+// the solvers; a goal without strings is first tried without the assumptions that talk about them)
+func hasStrSort(t *Term) bool {
+	if v, ok := strMemo[t]; ok {
+		return v
+	}
+	r := t.Sort == SStr
+	if !r {
+		for _, a := range t.Args {
+			if hasStrSort(a) {
+				r = true
+				break
+			}
+		}
+	}
+	strMemo[t] = r
+	return r
+}
+
 func size(t *Term) int {
 	n := 1
 	for _, a := range t.Args {
